@@ -295,7 +295,13 @@ let steps_of (case : string list) (obs : string list) : vconfig * fstep list =
     let rec go now pre ops obs acc =
       match ops, obs with
       | o :: ops', t :: obs' ->
-        if t = "PANIC" then List.rev acc else
+        if t = "PANIC" then
+          (* a Rust panic (or a model None-as-panic): the step is kept, as a PollPanic result
+             with an unchanged fingerprint, so that predicates see it; the trace ends here *)
+          List.rev ({ fs_now = (match o with VoSetNow t -> t | _ -> now); fs_pre = pre;
+                      fs_event = fevent_of o; fs_result = FrPoll (PollPanic, [], [], None);
+                      fs_disp_woken = false; fs_self_woken = false; fs_post = pre } :: acc)
+        else
         let (res, dw, sw, post) = parse_obs t in
         let now' = (match o with VoSetNow t -> t | _ -> now) in
         go now' post ops' obs'
@@ -307,8 +313,28 @@ let steps_of (case : string list) (obs : string list) : vconfig * fstep list =
 (* registry of the extracted property predicates, by name.
    step-local: vconfig -> fstep -> bool ; trace-level: vconfig -> fstep list -> bool *)
 let step_preds : (string * (vconfig -> fstep -> bool)) list = [
+  ("c10_bounded", c10_bounded);
+  ("c02_write_wakes", c02_write_wakes);
+  ("c02_drop_writer_wakes", c02_drop_writer_wakes);
+  ("c02_shutdown_wakes", c02_shutdown_wakes);
+  ("c02_read_wakes", c02_read_wakes);
+  ("c02_parked_ok", c02_parked_ok);
+  ("c02_eof_wakes", c02_eof_wakes);
+  ("c02_zero_window_waker", c02_zero_window_waker);
+  ("c02_timer_ok", c02_timer_ok);
+  ("c02_rto_armed", c02_rto_armed);
+  (* classifiers of known classes: OK = the step is in the class *)
+  ("c02_d2_class_neg", (fun c st -> not (c02_d2_class c st)));
+  ("c02_d8_class_neg", (fun c st -> not (c02_d8_class c st)));
+  ("c02_d9_class_neg", (fun c st -> not (c02_d9_class c st)));
+  ("c02_d14_class_neg", (fun c st -> not (c02_d14_class c st)));
 ]
 let trace_preds : (string * (vconfig -> fstep list -> bool)) list = [
+  ("c10_step_ok", c10_step_ok);
+  ("c02_prompt", c02_prompt);
+  (* classifiers of known classes: OK = the trace is in the class *)
+  ("c10_kf2_class", c10_kf2_class);
+  ("c10_closed_pending_class", c10_closed_pending_class);
 ]
 
 (* vsock_pred <name> <case tokens> | <observations> *)
